@@ -83,3 +83,80 @@ CONTRACTS = [
         raises={'PySmiSemanticError': True},
     ),
 ]
+
+
+# =====================================================================================================
+# registration, OID strings, clause handlers
+# =====================================================================================================
+REG_ASSIGNS = ['self._out', 'self._seenSyms', 'self._oids', 'self._enterpriseOid', 'self._moduleIdentityOid',
+               'self._complianceOids']
+ENT = "'.'.join(outDict['oid'].split('.')[:7])"
+IS_ENT = "('oid' in outDict and outDict['oid'].startswith('1.3.6.1.4.1.'))"
+
+CONTRACTS += [
+    Contract(
+        id='intermediate.regSym', file=FILE, func='IntermediateCodeGen.regSym', serves=['C03', 'C01', 'C18'],
+        params={'self': SELF, 'symbol': Str, 'outDict': MapOf(), 'parentOid': Any, 'moduleIdentity': Bool,
+                'moduleCompliance': Bool},
+        inline=['IntermediateCodeGen.addToExports'],
+        requires=['implies("oid" in outDict, is_str(outDict["oid"]))'],
+        returns=NoneT, assigns=REG_ASSIGNS,
+        ensures={
+            'registered_under_its_name': 'implies(not raised, same(self._out[symbol], outDict) and symbol in self._seenSyms)',
+            'other_records_untouched': 'forall(lambda s_k: implies(s_k != symbol, same(self._out[s_k], old(self._out)[s_k])))',
+            'oid_collected': 'implies(not raised and "oid" in outDict, outDict["oid"] in self._oids)',
+            'oids_only_grow': 'forall(old(self._oids), lambda o: o in self._oids)',
+            'oids_nothing_else': 'implies(not raised, forall(self._oids, lambda o: o in old(self._oids) or '
+                                 '("oid" in outDict and o == outDict["oid"])))',
+            'enterprise_is_first_private_oid': 'implies(not raised, same(self._enterpriseOid, '
+                                               'ite(not truthy(old(self._enterpriseOid)) and %s, %s, old(self._enterpriseOid))))' % (IS_ENT, ENT),
+            'identity_set_once': 'implies(not raised, same(self._moduleIdentityOid, '
+                                 'ite(moduleIdentity and "oid" in outDict, outDict["oid"], old(self._moduleIdentityOid))))',
+            'compliance_appended_in_order': 'implies(not raised, same(seq(self._complianceOids), '
+                                            'ite(moduleCompliance and "oid" in outDict, '
+                                            'concat(seq(old(self._complianceOids)), (outDict["oid"],)), seq(old(self._complianceOids)))))',
+            'duplicate_is_rejected': 'implies(symbol in old(self._seenSyms) and symbol not in old(self._importMap), '
+                                     'raised and same(self._out, old(self._out)))',
+            'second_identity_is_rejected': 'implies(moduleIdentity and "oid" in outDict and truthy(old(self._moduleIdentityOid)), raised)',
+        },
+        raises={'PySmiSemanticError': '(symbol in old(self._seenSyms) and symbol not in old(self._importMap)) or '
+                                      '(moduleIdentity and "oid" in outDict and truthy(old(self._moduleIdentityOid)))'},
+    ),
+]
+
+ST_WF = ['forall(self.symbolTable, lambda m, t: is_dict(t))',
+         'forall(lambda s_m, s_n: implies(s_m in self.symbolTable and s_n in self.symbolTable[s_m], '
+         'is_dict(self.symbolTable[s_m][s_n]) and implies("oid" in self.symbolTable[s_m][s_n], '
+         'is_tuple(self.symbolTable[s_m][s_n]["oid"]) and forall(seq(self.symbolTable[s_m][s_n]["oid"]), '
+         'lambda x: is_num(x) or (is_tuple(x) and len(x) == 2)))))']
+
+# symbolic OID part for one sub-identifier as written: name -> (translated name, defining module),
+# number -> itself, name(number) -> number
+SYM = ('lambda el: ite(is_str(el), (py_replace(el, "-", "_"), self._importMap.get(py_replace(el, "-", "_"), '
+       'self.moduleName[0])), ite(is_num(el), el, el[1]))')
+
+CONTRACTS += [
+    Contract(
+        id='intermediate.genOid', file=FILE, func='IntermediateCodeGen.genOid', serves=['C01'],
+        params={'self': SELF, 'data': Lst(SeqOf())},
+        inline=['IntermediateCodeGen.transOpers'],
+        defs={'SYM': SYM},
+        requires=['forall(data[0], lambda el: is_str(el) or is_num(el) or (is_tuple(el) and len(el) == 2 and is_num(el[1])))']
+                 + ST_WF,
+        loops={1: {'invariant': ['is_tuple(out)', 'is_str(parent)', 'len(out) == _i',
+                                 'forall(seq(out), lambda x: is_num(x) or (is_tuple(x) and len(x) == 2))',
+                                 'forall(seq(out), lambda j, x: same(x, SYM(data[0][j])))']}},
+        returns=Tup(Str, Str),
+        at_return={1: {
+            # `out` is, element by element, the symbolic form of the sub-identifiers as written ...
+            'oid_parts_as_written': 'len(out) == len(data[0]) and forall(seq(out), lambda j, x: same(x, SYM(data[0][j])))',
+            # ... and the dotted string is the decimal rendering of Resolve applied to it
+            'oid_string': 'same(result[0], ".".join([str(x) for x in RES(self.symbolTable, out, len(out))]))',
+        }},
+        ensures={
+            'parent_is_text': 'implies(not raised, is_str(result[1]))',
+            'table_unchanged': 'same(self.symbolTable, old(self.symbolTable))',
+        },
+        raises={'PySmiSemanticError': True},
+    ),
+]
